@@ -351,11 +351,13 @@ func segmentMapOff(c *Ctx, p *Program) {
 // Q3 quantiser/token coherence: the quantisers announced in the frame header must be the ones the
 // coefficients were quantised with. In the function that produces the final frame bytes
 // (the exported encoder method returning ([]byte, error)), consider three kinds of calls:
-//   W  a call that (transitively) reaches the quantiser setter - the encoder function that derives
-//      the quantisation steps from KDcTable (the one Q1 compares with the decoder's);
-//   E  a call that (transitively) reaches a quantisation kernel - a function that takes a pointer
-//      to the matrix type the setter fills - i.e. coefficients and tokens are produced anew;
-//   S  the call whose result becomes the returned frame.
+//
+//	W  a call that (transitively) reaches the quantiser setter - the encoder function that derives
+//	   the quantisation steps from KDcTable (the one Q1 compares with the decoder's);
+//	E  a call that (transitively) reaches a quantisation kernel - a function that takes a pointer
+//	   to the matrix type the setter fills - i.e. coefficients and tokens are produced anew;
+//	S  the call whose result becomes the returned frame.
+//
 // On no path may a W call reach S without an E call in between. For a W callee that returns a
 // boolean the analysis is sensitive to the constant returned: the callee "leaves the quantisers
 // changed" only on the return values reached after its own W calls.
